@@ -438,6 +438,7 @@ def run(shard, ctx):
     if shard.get("own_tables"):
         for _rep in range(shard["reps"]):
             run_own_tables(shard, ctx)
+        run_t10_named_tables(ctx)
         return
     if shard.get("attached"):
         return run_attached(shard, ctx)
@@ -1011,6 +1012,60 @@ def run_own_tables(shard, ctx):
                     continue
                 for mech, msg in harness.check_cdb(c, dev.calls[0][0].cdb, chk):
                     ctx.fail("C13:%s.own_table.cdb.%s" % (c.facade, mech), "%s on a new table with the standard entries (after a quirk table was dropped): %s" % (c.facade, msg), dict(wit, cdb=bytes(dev.calls[0][0].cdb)))
+
+
+def run_t10_named_tables(ctx):
+    """private command sets that spell the entries of the service-action groups with their T10 names (MAINTENANCE_IN,
+    SERVICE_ACTION_IN_16 ...) and list both directions, in either order: a facade method either refuses (nothing sent) or
+    sends the operation code T10 assigns to its command"""
+    import pyscsi.pyscsi.scsi_enum_command as E
+    from pyscsi.pyscsi.scsi_opcode import OpCode
+    from pyscsi.utils.enum import Enum
+
+    from vmon import harness
+    from vmon.spec import cdb as S, dataout as DO
+
+    rng = ctx.rng("t10-named")
+    groups = {"MAINTENANCE_IN": 0xA3, "MAINTENANCE_OUT": 0xA4, "SERVICE_ACTION_IN_16": 0x9E, "SERVICE_ACTION_OUT_16": 0x9F, "SERVICE_ACTION_IN_12": 0xAB, "SERVICE_ACTION_OUT_12": 0xA9}
+    sa_tables = [getattr(E, n) for n in dir(E) if isinstance(getattr(E, n), dict) and (n.startswith("sa_") or n == "service_actions")] or [{}]
+    all_sa = {}
+    for tb in sa_tables:
+        all_sa.update(tb)
+    plain = {k: getattr(E.sbc, k) for k in E.sbc.keys if getattr(E.sbc, k).value not in groups.values()}
+    for order in ("out_first", "in_first", "alphabetical", "reverse"):
+        names = sorted(groups)
+        if order == "out_first":
+            names = [n for n in names if "OUT" in n] + [n for n in names if "OUT" not in n]
+        elif order == "in_first":
+            names = [n for n in names if "OUT" not in n] + [n for n in names if "OUT" in n]
+        elif order == "reverse":
+            names = names[::-1]
+        for where in ("front", "back"):
+            entries = [(n, OpCode(n, groups[n], dict(all_sa))) for n in names]
+            items = (entries + list(plain.items())) if where == "front" else (list(plain.items()) + entries)
+            tbl = Enum(dict(items))
+            for c in S.COMMANDS.values():
+                if not c.facade or not c.sa or "sbc" not in c.sets and "spc" not in c.sets:
+                    continue
+                if c.op not in groups.values():
+                    continue
+                dev = harness.Recorder(tbl)
+                s = harness.make_facade(dev, 512)
+                a = dict(required_args(c, rng))
+                try:
+                    harness.facade_call(c, s, DO.fresh(a) if c.custom else dict(a))
+                    err = None
+                except BaseException as e:  # noqa: BLE001  (the unchanged facade ends in StopIteration here)
+                    err = e
+                ctx.case(("t10-named-table", order, where, c.facade), True)
+                ctx.count("t10_named_table_calls")
+                for call in dev.calls:
+                    cdb = call[0].cdb
+                    if cdb[0] != c.op or (len(cdb) > 1 and (cdb[1] & 0x1F) != c.sa[1]):
+                        ctx.fail("C13:%s.t10_named_table.other_command" % c.facade, "%s on a private table with T10-named group entries (%s, %s of the table) sent %02X %02X, T10 assigns %02X %02X to %s"
+                                 % (c.facade, order, where, cdb[0], cdb[1] & 0x1F, c.op, c.sa[1], c.name), {"method": c.facade, "order": order, "group_entries_at": where, "cdb": bytes(cdb)})
+                if len(dev.calls) > 1:
+                    ctx.fail("C13:%s.t10_named_table.execute_count" % c.facade, "%d commands sent" % len(dev.calls), {"method": c.facade, "order": order})
 
 
 def run_transport(shard, ctx):
